@@ -333,4 +333,5 @@ func runC06(c *report.Ctx) {
 	ruleRemovalStepIdempotent(c)
 	ruleLayout(c, []string{"wallet-status-value", "synced-block-value", "synced-to-value"}, 5)
 	ruleNoMemoryTipUnderUpdate(c)
+	ruleFastForwardGate(c)
 }
